@@ -238,6 +238,10 @@ func ZZ_C11_convert_table() {
 		{"map with bool key->map[string]int64 fails", map[interface{}]interface{}{true: i64}, targets("map[string]int64"), false, nil},
 		{"int64->interface{} unchanged", i64, targets("interface{}"), true, func(rv reflect.Value) bool { return rv.Kind() == reflect.Int64 && rv.Int() == i64 }},
 		{"string->string", "s", targets("string"), true, func(rv reflect.Value) bool { return rv.String() == "s" }},
+		{"empty list->[]int64 is empty, not nil", []interface{}{}, targets("[]int64"), true, func(rv reflect.Value) bool { return rv.Len() == 0 && !rv.IsNil() }},
+		{"empty list->[]string is empty, not nil", []interface{}{}, targets("[]string"), true, func(rv reflect.Value) bool { return rv.Len() == 0 && !rv.IsNil() }},
+		{"empty typed slice->[]interface{} is empty, not nil", []int64{}, targets("[]interface{}"), true, func(rv reflect.Value) bool { return rv.Len() == 0 && !rv.IsNil() }},
+		{"empty map->map[string]int64 is empty, not nil", map[interface{}]interface{}{}, targets("map[string]int64"), true, func(rv reflect.Value) bool { return rv.Len() == 0 && !rv.IsNil() }},
 		{"3-element slice->[3]int64 element-wise", []interface{}{i64, int64(2), 3.5}, targets("[3]int64"), true, func(rv reflect.Value) bool {
 			return rv.Len() == 3 && rv.Index(0).Int() == i64 && rv.Index(1).Int() == 2 && rv.Index(2).Int() == 3
 		}},
